@@ -10,6 +10,7 @@
   through `type_of%`.  Beside each theorem: a concrete input meeting its hypotheses.
 -/
 import PdbVerif.Proofs.FloatMargin
+import PdbVerif.Proofs.GenRmsdFnat
 
 namespace Props.C08K
 open Proofs.FloatMargin
@@ -66,5 +67,44 @@ example : (fdist id (flPt id (ofMilli 0 0 0)) (flPt id (ofMilli 2951 2876 2832))
     (by decide) (by decide) (by decide) (by decide) (by decide) (by decide) (by decide)
 
 example : n2 0 0 0 2951 2876 2832 = 5000 ^ 2 + 1 := by decide
+
+end Props.C08K
+
+/-! --------------------------------------------------------------------------------------------------------------------
+  APPENDED SECTION — translated reference residue pairs (tie #1 for the data flow of C08, fast route).
+  `GenR.compute_residue_pairs_ref` (Gen/Rmsd.lean, regenerated from StructureSimilarity.py on every run by
+  py/translate_ext_rmsd.py; specialised on `save_file=False`, the only way the fast route calls it) IS the hand model
+  `Model.Fnat.residuePairsRef` with the contact routine as a parameter.  `GenR.compute_fnat_fast` (the raw-column loop over the
+  decoy, the two counters, `round(nCommon / nTotal, 6)`) is translated and compared with the real code on every run (driver op
+  `gen_fnat_fast`, py/props/c08.py); its equality with `Model.Fnat.fnatFast` is not proved.
+-------------------------------------------------------------------------------------------------------------------- -/
+
+namespace Props.C08K
+
+theorem genr_compute_residue_pairs_ref_eq_model : type_of% @Proofs.GenRmsd.genr_compute_residue_pairs_ref_eq_model := @Proofs.GenRmsd.genr_compute_residue_pairs_ref_eq_model
+theorem residuePairsRefWith_model : type_of% @Proofs.GenRmsd.residuePairsRefWith_model := @Proofs.GenRmsd.residuePairsRefWith_model
+
+/-! non-vacuity: the generated fast route on a two-residue reference and three decoys (contact kept, lost, residue missing) -/
+def fxAtom (serial : Int) (name : String) (chain : String) (resSeq : Int) (x : Rat) : Py.Atom :=
+  { serial := serial, name := name.toList, altLoc := [], resName := "ALA".toList, chainID := chain.toList, resSeq := resSeq, iCode := [],
+    x := x, y := 0, z := 0, occ := 1, temp := 0, element := "C".toList, model := 0 }
+def fxRef : List Py.Atom := [fxAtom 1 "CA" "A" 1 0, fxAtom 2 "CA" "B" 1 3]
+def fxPairs : Model.Dict Model.ResKey (List Model.ResKey) := [(("A".toList, 1, "ALA".toList), [("B".toList, 1, "ALA".toList)])]
+def fxDec (xB : String) : List Py.Str :=
+  ["ATOM      1  CA  ALA A   1       0.000   0.000   0.000".toList, ("ATOM      2  CA  ALA B   1    " ++ xB ++ "   0.000   0.000").toList,
+   "ATOM      3  H   ALA B   1       1.000   0.000   0.000".toList]
+
+example : (match GenR.compute_residue_pairs_ref (fun _ => .ok fxRef) (fun _ _ _ _ => .ok fxPairs) [] 5 with
+    | .ok d => d == fxPairs | _ => false) = true := by decide +kernel
+/-- contact kept (3 A ≤ 5 A): 1.0; lost (9 A; the hydrogen at 1 A does not count): 0.0; no ATOM line: the residue is missing, 0.0 -/
+example : (match GenR.compute_fnat_fast (fun _ => .ok (fxDec "   3.000")) (fun _ => .ok fxRef) (fun _ _ _ _ => .ok fxPairs) [] [] 5 with
+    | .ok v => v == 1 | _ => false) = true := by decide +kernel
+example : (match GenR.compute_fnat_fast (fun _ => .ok (fxDec "   9.000")) (fun _ => .ok fxRef) (fun _ _ _ _ => .ok fxPairs) [] [] 5 with
+    | .ok v => v == 0 | _ => false) = true := by decide +kernel
+example : (match GenR.compute_fnat_fast (fun _ => .ok []) (fun _ => .ok fxRef) (fun _ _ _ _ => .ok fxPairs) [] [] 5 with
+    | .ok v => v == 0 | _ => false) = true := by decide +kernel
+/-- no reference contact: ZeroDivisionError -/
+example : (match GenR.compute_fnat_fast (fun _ => .ok []) (fun _ => .ok fxRef) (fun _ _ _ _ => .ok []) [] [] 5 with
+    | .error .zeroDiv => true | _ => false) = true := by decide +kernel
 
 end Props.C08K
